@@ -485,6 +485,10 @@ class Interp:
             if T.is_int(idx):
                 return v.xs[idx[1]]
             raise Unanalysable('symbolic index into concrete array')
+        if isinstance(v, Sym) and v.term[0] == 'map':
+            # element of a collected map: the closure body at that index
+            _, dom, bound, body = v.term
+            return T.subst(body, {bound: idx})
         if isinstance(v, Sym):
             ety = self.elem_ty(v.ty)
             t = ('elem', v.term, idx)
@@ -697,6 +701,11 @@ class Interp:
         if base in ('BitAnd', 'BitOr', 'BitXor'):
             if T.is_int(a) and T.is_int(b):
                 return T.mk_bitop(base.lower(), a, b)
+            if base in ('BitOr', 'BitXor'):
+                if T.is_int(a) and a[1] == 0:
+                    return b
+                if T.is_int(b) and b[1] == 0:
+                    return a
             if base == 'BitOr':
                 # (x * 2^k) | y  with 0 <= y < 2^k  ==  x*2^k + y
                 for x, y in ((a, b), (b, a)):
@@ -809,6 +818,9 @@ class Interp:
         if isinstance(v, Tup):
             return I(len(v.xs))
         if isinstance(v, Sym):
+            m = re.match(r'^\[.*; (\d+)\]$', v.ty or '')
+            if m:
+                return I(int(m.group(1)))
             return T.typed(('len', v.term), 'usize')
         if isinstance(v, ListV):
             return self.listv_len(v)
@@ -1320,6 +1332,12 @@ class Interp:
         cv = clo
         while isinstance(cv, Ref):
             cv = self.load(st, cv.cell, cv.path)
+        if isinstance(cv, tuple) and cv and cv[0] == 'fnitem':
+            # a function item used where a closure is expected (e.g. `.map(f)`)
+            lf = self.crate.fns.get(cv[1])
+            if lf is None:
+                raise Unanalysable('function item %s has no local body' % cv[1], site)
+            return self.eval_local(st, lf, list(args), site)
         if not isinstance(cv, Clo):
             raise Unanalysable('closure value expected, got %r' % (cv,), site)
         cfn = self.crate.fns.get(cv.path)
@@ -1361,6 +1379,16 @@ class Interp:
             r = self.on_call(self, st, name, args, site, c)
             if r is not None:
                 return self.apply_alternatives(st, fr, r, dest, target, work, out, argops)
+        if name == '<T as std::convert::Into<U>>::into' and len(c.get('generics', [])) == 2:
+            # blanket impl: U::from(t)
+            cand = '<%s as std::convert::From<%s>>::from' % (c['generics'][1], c['generics'][0])
+            if cand in self.crate.fns:
+                name = cand
+                c = dict(c, local=True, resolved=cand)
+            elif c['generics'][0].startswith('std::vec::Vec<') and c['generics'][1].startswith('std::boxed::Box<['):
+                cell, path = self.place_loc(st, fr, dest)
+                self.store(st, cell, path, args[0])
+                return self.goto(st, fr, target, out)
         local_fn = self.crate.fn(name) if c.get('local') else None
         if local_fn is not None and not self.uninterpreted(name):
             if (self.inline is None or self.inline(name)):
